@@ -784,3 +784,137 @@ func zeroText(t types.Type) string {
 	}
 	return "zero"
 }
+
+// --- folding through expression functions and fixed tables ------------------------------
+
+// foldEnv binds parameters of expression functions to the expressions they were called with.
+type foldEnv map[types.Object]ast.Expr
+
+// foldInt evaluates an integer expression made of constants, parameters bound in env,
+// conversions, and reads of effectively constant package-level tables at a constant index
+// (unroll.go: constantTables).
+func (l *Loaded) foldInt(info *types.Info, e ast.Expr, env foldEnv, depth int) (int64, bool) {
+	e = unparen(e)
+	if depth > 6 {
+		return 0, false
+	}
+	if v, ok := constInt(info, e); ok {
+		return v, true
+	}
+	switch v := e.(type) {
+	case *ast.Ident:
+		if b, ok := env[objOf(info, v)]; ok {
+			return l.foldInt(info, b, nil, depth+1) // arguments are written in the caller's frame
+		}
+	case *ast.CallExpr:
+		if tv, ok := info.Types[v.Fun]; ok && tv.IsType() && len(v.Args) == 1 {
+			return l.foldInt(info, v.Args[0], env, depth+1)
+		}
+	case *ast.IndexExpr:
+		idx, ok := l.foldInt(info, v.Index, env, depth+1)
+		if !ok {
+			return 0, false
+		}
+		id, isId := unparen(v.X).(*ast.Ident)
+		if !isId {
+			return 0, false
+		}
+		cl := l.constTables()[objOf(info, id)]
+		if cl == nil {
+			return 0, false
+		}
+		pos := int64(0)
+		for _, el := range cl.Elts {
+			val := el
+			if kv, isKV := el.(*ast.KeyValueExpr); isKV {
+				k, ok := constInt(info, kv.Key)
+				if !ok {
+					return 0, false
+				}
+				pos, val = k, kv.Value
+			}
+			if pos == idx {
+				return l.foldInt(info, val, nil, depth+1)
+			}
+			pos++
+		}
+		return 0, true // an element the literal leaves at zero
+	}
+	return 0, false
+}
+
+var constTablesOf = map[*Loaded]map[types.Object]*ast.CompositeLit{}
+
+func (l *Loaded) constTables() map[types.Object]*ast.CompositeLit {
+	if t, ok := constTablesOf[l]; ok {
+		return t
+	}
+	t := constantTables(l.modulePkgs())
+	constTablesOf[l] = t
+	return t
+}
+
+// thresholdOf: fi is, for its single integer parameter v, the predicate "v >= N" - written
+// directly, or through expression functions and fixed tables
+// (return versionSupports(v, extTucreation); return v >= extensionMinVersion[e]).
+func (l *Loaded) thresholdOf(fi *FuncInfo) (int64, bool) {
+	info := fi.Pkg.TypesInfo
+	if fi.Decl.Type.Params == nil || len(fi.Decl.Type.Params.List) != 1 || len(fi.Decl.Type.Params.List[0].Names) != 1 {
+		return 0, false
+	}
+	param := info.Defs[fi.Decl.Type.Params.List[0].Names[0]]
+	var eval func(decl *ast.FuncDecl, env foldEnv, isParam func(ast.Expr) bool, depth int) (int64, bool)
+	eval = func(decl *ast.FuncDecl, env foldEnv, isParam func(ast.Expr) bool, depth int) (int64, bool) {
+		body := exprFuncBody(decl)
+		if body == nil || depth > 3 {
+			return 0, false
+		}
+		switch v := unparen(body).(type) {
+		case *ast.BinaryExpr:
+			switch v.Op {
+			case token.GEQ:
+				if isParam(v.X) {
+					return l.foldInt(info, v.Y, env, 0)
+				}
+			case token.LEQ:
+				if isParam(v.Y) {
+					return l.foldInt(info, v.X, env, 0)
+				}
+			case token.GTR:
+				if isParam(v.X) {
+					n, ok := l.foldInt(info, v.Y, env, 0)
+					return n + 1, ok
+				}
+			}
+		case *ast.CallExpr:
+			g := l.FuncOf(callee(info, v))
+			if g == nil || g.Pkg != fi.Pkg || g.Decl.Type.Params == nil {
+				return 0, false
+			}
+			// bind g's parameters; exactly one of them must be handed our parameter
+			sub := foldEnv{}
+			var inner types.Object
+			idx := 0
+			for _, f := range g.Decl.Type.Params.List {
+				for _, nm := range f.Names {
+					if idx < len(v.Args) {
+						if isParam(v.Args[idx]) {
+							inner = info.Defs[nm]
+						} else if b, ok := env[objOf(info, unparen(v.Args[idx]))]; ok {
+							sub[info.Defs[nm]] = b
+						} else {
+							sub[info.Defs[nm]] = v.Args[idx]
+						}
+					}
+					idx++
+				}
+			}
+			if inner == nil {
+				return 0, false
+			}
+			return eval(g.Decl, sub, func(e ast.Expr) bool { return objOf(info, unparen(e)) == inner }, depth+1)
+		}
+		return 0, false
+	}
+	return eval(fi.Decl, foldEnv{}, func(e ast.Expr) bool { return objOf(info, unparen(e)) == param }, 0)
+}
